@@ -16,3 +16,4 @@ pub assume_specification<'a, T: Copy>[ Option::<&'a T>::copied ](o: Option<&'a T
         o is None ==> r is None,
         o matches Some(x) ==> r == Some(*x);
 
+
